@@ -413,13 +413,15 @@ func c09Gen(r *Rand) c09Case {
 			sbase = c09Mutate(r, base)
 		}
 		vs := map[string]*c09Schema{}
-		nVer := 1 + r.Intn(3)
-		for v := 0; v < nVer; v++ {
-			if v == 0 {
-				vs[nm("v", v)] = sbase
-			} else {
-				vs[nm("v", v)] = c09Mutate(r, sbase)
-			}
+		nVer := 1 + r.Intn(4)
+		// versions form a history: each one is derived from an earlier one, so that later
+		// versions share what an early one lacks; version names are then assigned in random order
+		hist := []*c09Schema{sbase}
+		for v := 1; v < nVer; v++ {
+			hist = append(hist, c09Mutate(r, hist[r.Intn(len(hist))]))
+		}
+		for i, j := range r.Perm(nVer) {
+			vs[nm("v", i)] = hist[j]
 		}
 		cs.Services[nm("svc", s)] = vs
 	}
